@@ -54,7 +54,7 @@ def gen_stream(rng, size, density, vclass, seeds):
     """seeds: intervals with fixed values (cancelling partners). Returns sorted disjoint [(s, e, v)]."""
     cand = list(seeds)
     feats = set()
-    if rng.random() < 0.5:
+    if rng.random() < 0.3:
         cand.append((0, min(size, rng.choice([1, 10, 10, rng.randint(1, 3000)])), None))
         feats.add("value_at_base_0")
     nb = (size - 1) // W
@@ -401,8 +401,12 @@ def _case(c, seed, tier, index, cwd):
             r = ct.run(argv, cwd, timeout=5)
             c.count("tool_invocations")
             c.log.append(r.cmdline + "   -> rc=%s%s" % (r.rc, " TIMEOUT(5s)" if r.timed_out else ""))
-            if r.timed_out or r.rc != 0:
-                c.tag("bigwig_writer_fails_on_empty_stream(C13):" + ("hang" if r.timed_out else ("panic" if r.panicked() else "error_exit")))
+            if r.timed_out or r.panicked():
+                # a merge whose settings filter out every value: the tool must still terminate without panicking
+                c.viol("empty_merge_to_bigwig", "hang" if r.timed_out else "panic", detail(rc=r.rc, stderr=r.err[:600]))
+                return None
+            if r.rc != 0:
+                c.count("empty_merge_to_bigwig_refused_with_error_exit")
                 return "blocked"
         else:
             r = ct.run(argv, cwd)
